@@ -103,7 +103,7 @@ void World::exec_op(const Op &op) {
 		c.origin_local = c.transport == "uds" || c.origin_ip == "127.0.0.1" || c.origin_ip == "::1" || c.origin_ip == "::ffff:127.0.0.1";
 		probe("origin:" + (c.transport == "uds" ? std::string("unix") : c.origin_ip));
 		c.in.ws = c.od.ws = (c.transport == "ws"); c.in.maxmsg = g_variant.max_message;
-		c.rdcap = (size_t)op.a.getd("rdcap", 0); c.wcap = (size_t)op.a.getd("wcap", 0); c.space = (int64_t)op.a.getd("space", -1);
+		c.rdcap = (size_t)op.a.getd("rdcap", 0); c.wcap = (size_t)op.a.getd("wcap", 0); c.space = (int64_t)op.a.getd("space", -1); c.wboundary = op.a.getb("wboundary");
 		const JV *pol = op.a.get("policy"); if (pol) c.policy = *pol;
 		c.no_expect = op.a.getb("noexpect"); c.faulty = op.a.getb("faulty");
 		// (the connection is only written off when the fault really fires: a local socket makes fewer configuration calls than a TCP one)
@@ -189,7 +189,7 @@ void World::exec_op(const Op &op) {
 		if (cl->accepted) { KFd *kk = g_kernel.get(cl->fd); if (kk) g_kernel.mark_pending(*kk); }
 		return;
 	}
-	if (k == "stall" || k == "drain" || k == "wcap" || (k == "sockerr" && op.a.gets("dir", "r") == "w")) {
+	if (k == "stall" || k == "drain" || k == "wcap" || k == "wboundary" || (k == "sockerr" && op.a.gets("dir", "r") == "w")) {
 		// from here on what this peer receives, and when, is no longer determined by the protocol: it joins the faulty set
 		if (!cl->faulty) { cl->faulty = true; cl->expq.clear(); probe("peer_becomes_faulty"); }
 	}
@@ -206,6 +206,7 @@ void World::exec_op(const Op &op) {
 		return;
 	}
 	if (k == "wcap") { cl->wcap = (size_t)op.a.getd("n", 0); return; }
+	if (k == "wboundary") { cl->wboundary = op.a.getb("on", true); return; }
 	if (k == "rdcap") { cl->rdcap = (size_t)op.a.getd("n", 0); return; }
 	if (k == "sockerr") {
 		if (op.a.gets("dir", "r") == "w") cl->wr_err = (int)op.a.geti("errno", EPIPE);
